@@ -17,7 +17,7 @@ from harness import tlc, doubles
 PROP_FORMULAS = {
     'C07': ['NoRaise', 'OneOfSix', 'Accounted', 'PutAtMostOnce', 'StatusMatchesEffect', 'TextIsGenerated',
             'FailedCarriesError', 'OptionsPassed'],
-    'C08': ['NoRaise', 'Accounted', 'FetchAtMostOnce', 'SourceOrder', 'CompiledFromAccepted'],
+    'C08': ['NoRaise', 'Terminates', 'Accounted', 'FetchAtMostOnce', 'SourceOrder', 'CompiledFromAccepted'],
     'C09': ['NoRaise', 'Accounted', 'AllOrNothing'],
     'C10': ['NoRaise', 'FreshMeansUntouched', 'SearcherOrder', 'SearcherSeesSourceTime', 'NoDepsOnlyRequested',
             'GeneratedWhenNeeded', 'OptionsPassed'],
@@ -38,14 +38,16 @@ SLICES = {
     'q3': (1, 2, 0, 'Req_q3', 'Src_q3', '{"fresh", "absent", "error"}', '{"ok", "err"}', '{}', '{"ok", "err"}'),
     'q4': (1, 1, 2, 'Req_q3', 'Src_q3', '{"fresh", "absent"}', '{"ok", "err"}', '{"ok", "nf", "err"}', '{"ok"}'),
     'q5': (1, 1, 1, 'Req_q3', 'Src_q3', '{"fresh", "absent", "silent"}', '{"ok", "err"}', '{"ok", "nf"}', '{"ok", "err"}'),
+    # alias files (file named unlike its module) with a borrower: eligibility by canonical name under noDeps
+    'q7': (1, 1, 1, 'Req_q2', 'Src_q2', '{"absent"}', '{"ok", "err"}', '{"ok", "nf"}', '{"ok"}'),
     'q6': (2, 0, 0, 'Req_q6', 'Src_q6', '{}', '{"ok", "err"}', '{}', '{"ok"}'),
     't1': (2, 1, 1, 'Req_t1', 'Src_t1', '{"fresh", "absent"}', '{"ok", "err"}', '{"ok", "nf"}', '{"ok", "err"}'),
     't3': (1, 2, 2, 'Req_q3', 'Src_q3', '{"fresh", "absent", "error", "silent"}', '{"ok", "err"}', '{"ok", "nf", "err"}', '{"ok", "err"}'),
 }
-TIERS = {'quick': ['q1', 'q2', 'q3', 'q4', 'q5'], 'thorough': ['q1', 'q2', 'q3', 'q4', 'q5', 'q6', 't1', 't3']}
+TIERS = {'quick': ['q1', 'q2', 'q3', 'q4', 'q5'], 'thorough': ['q1', 'q2', 'q3', 'q4', 'q5', 'q6', 'q7', 't1', 't3']}
 # quick tier: the slices that exercise the property's own phases (thorough runs all of them for every property)
 QUICK = {'C07': ['q1', 'q2', 'q4', 'q5', 'q6'], 'C08': ['q1', 'q2', 'q6'], 'C09': ['q2', 'q4', 'q5', 'q6'],
-         'C10': ['q2', 'q3', 'q5'], 'C19': ['q2', 'q4', 'q5']}
+         'C10': ['q2', 'q3', 'q5'], 'C19': ['q2', 'q4', 'q5', 'q7']}
 
 
 def cfg_text(sl, formulas, export=None, devs=()):
